@@ -368,20 +368,25 @@ Definition aseg_touch (s : aseg) : aseg := aseg_with_frags s (map afrag_touch (s
 Definition aseg_size (s : aseg) : N :=
   osize ob_size (sg_styp s) + obs_size (sg_sidxs s) + sumN (map afrag_size (sg_frags s)).
 
-(* `for _, f := range s.Fragments { f.EncOptimize = s.EncOptimize; err := f.Encode(w) ... }` *)
-Fixpoint enc_frags (opt : bool) (fs : list afrag) : list afrag * res (list (list N)) :=
-  match fs with
+(* a loop `for _, x := range xs { err := x.Encode(w); if err != nil { return err } }` over stateful parts:
+   the parts after the failing one are not reached *)
+Fixpoint enc_seq {A} (enc : A -> A * res (list (list N))) (l : list A) : list A * res (list (list N)) :=
+  match l with
   | [] => ([], Ok [])
-  | f :: rest =>
-      let '(f', r) := afrag_encode (af_set_opt f opt) in
+  | a :: rest =>
+      let '(a', r) := enc a in
       match r with
       | Ok b =>
-          let '(rest', r2) := enc_frags opt rest in
-          (f' :: rest', match r2 with Ok b2 => Ok (b ++ b2) | e => e end)
-      | Panic => (f' :: rest, Panic)
-      | _ => (f' :: rest, Err)
+          let '(rest', r2) := enc_seq enc rest in
+          (a' :: rest', match r2 with Ok b2 => Ok (b ++ b2) | e => e end)
+      | Panic => (a' :: rest, Panic)
+      | _ => (a' :: rest, Err)
       end
   end.
+
+(* `for _, f := range s.Fragments { f.EncOptimize = s.EncOptimize; err := f.Encode(w) ... }` *)
+Definition enc_frags (opt : bool) (fs : list afrag) : list afrag * res (list (list N)) :=
+  enc_seq (fun f => afrag_encode (af_set_opt f opt)) fs.
 
 Definition opt_list {A} (o : option A) : list A := match o with Some x => [x] | None => [] end.
 
@@ -420,37 +425,17 @@ Definition fc_size (c : fchild) : N :=
   match c with FcMoof m => amoof_size m | FcMdat md => md_size md | FcOther o => ob_size o end.
 Definition fc_touch (c : fchild) : fchild := match c with FcMdat md => FcMdat (md_size_touch md) | _ => c end.
 
-Fixpoint enc_children (cs : list fchild) : list fchild * res (list (list N)) :=
-  match cs with
-  | [] => ([], Ok [])
-  | c :: rest =>
-      let '(c', r) := match c with
-                      | FcMoof m => (c, amoof_enc m)
-                      | FcMdat md => let '(md', r) := amd_enc md in (FcMdat md', r)
-                      | FcOther o => (c, enc_obox o)
-                      end in
-      match r with
-      | Ok b =>
-          let '(rest', r2) := enc_children rest in
-          (c' :: rest', match r2 with Ok b2 => Ok (b :: b2) | e => e end)
-      | _ => (c' :: rest, Err)
-      end
+Definition fc_encode (c : fchild) : fchild * res (list (list N)) :=
+  match c with
+  | FcMoof m => (c, do b <- amoof_enc m; Ok [b])
+  | FcMdat md => let '(md', r) := amd_enc md in (FcMdat md', do b <- r; Ok [b])
+  | FcOther o => (c, do b <- enc_obox o; Ok [b])
   end.
+Definition enc_children (cs : list fchild) : list fchild * res (list (list N)) := enc_seq fc_encode cs.
 
 (* `for _, seg := range f.Segments { if f.EncOptimize&OptimizeTrun != 0 { seg.EncOptimize = f.EncOptimize }; seg.Encode }` *)
-Fixpoint enc_segs (fopt : bool) (ss : list aseg) : list aseg * res (list (list N)) :=
-  match ss with
-  | [] => ([], Ok [])
-  | s :: rest =>
-      let '(s', r) := aseg_encode (if fopt then aseg_set_opt s true else s) in
-      match r with
-      | Ok b =>
-          let '(rest', r2) := enc_segs fopt rest in
-          (s' :: rest', match r2 with Ok b2 => Ok (b ++ b2) | e => e end)
-      | Panic => (s' :: rest, Panic)
-      | _ => (s' :: rest, Err)
-      end
-  end.
+Definition enc_segs (fopt : bool) (ss : list aseg) : list aseg * res (list (list N)) :=
+  enc_seq (fun s => aseg_encode (if fopt then aseg_set_opt s true else s)) ss.
 
 (* fl_mode: FragEncMode (0 = EncModeSegment, 1 = EncModeBoxTree).  In Go the segments of a DECODED file and
    f.Children share their boxes (fl_shared = true); a file assembled with AddMediaSegment has the fragments'
@@ -478,8 +463,8 @@ Definition afile_touch (f : afile) : afile :=
   else afile_with f (fl_segs f) (map fc_touch (fl_children f)).
 
 Definition afile_info (f : afile) : afile :=
-  afile_with f (if afile_seg_mode f && fl_shared f then map aseg_touch (fl_segs f) else fl_segs f)
-             (map fc_touch (fl_children f)).
+  if afile_seg_mode f then (if fl_shared f then afile_with f (map aseg_touch (fl_segs f)) (fl_children f) else f)
+  else afile_with f (fl_segs f) (map fc_touch (fl_children f)).
 
 Definition afile_encode (f : afile) : afile * res (list (list N)) :=
   if fl_fragmented f && negb (fl_mode f =? 0) && negb (fl_mode f =? 1) then (f, Err)   (* unknown FragEncMode *)
